@@ -496,16 +496,29 @@ pub fn run() {
     }
     let thorough = args.tier == Tier::Thorough;
     let budget = args.budget(20_000, 400_000, 20);
-    let t0 = std::time::Instant::now();
-    fold(&mut rep, explore::<Quorum>("C39", TEST, args.seed, thorough, budget), "quorum");
-    fold(&mut rep, explore::<Join>("C39", TEST, args.seed, thorough, budget), "join_responses");
-    rep.extra("seconds", json!(t0.elapsed().as_secs_f64()));
-    rep.require(rep.counter("quorum_exhaustive_scripts") >= 500, "fewer than 500 response sequences enumerated");
-    rep.require(rep.counter("quorum_exhaustive_executions") >= 5000, "fewer than 5000 exhaustive quorum executions");
-    rep.require(rep.counter("quorum_keys_reaching_quorum") >= 1000, "too few keys reached quorum");
-    rep.require(rep.counter("quorum_error_responses") >= 1000, "too few error responses");
-    rep.require(rep.counter("join_responses_exhaustive_executions") >= 20, "fewer than 20 exhaustive join executions");
-    rep.require(rep.counter("join_responses_eligible_responses") >= 500, "too few joinable responses");
-    rep.require(rep.counter("join_responses_runs_where_an_ack_never_came") == 0, "a metadata acknowledgement never arrived");
-    rep.finish(RULE, true);
+    drop(rep);
+    // one summary per helper family (see c31.rs for why)
+    {
+        let mut rep = Reporter::new("C39", args.seed);
+        let t0 = std::time::Instant::now();
+        fold(&mut rep, explore::<Quorum>("C39", TEST, args.seed, thorough, budget), "quorum");
+        rep.extra("helpers", json!("collect_quorum, collect_quorum_with_response"));
+        rep.extra("seconds", json!(t0.elapsed().as_secs_f64()));
+        rep.require(rep.counter("quorum_exhaustive_scripts") >= 500, "fewer than 500 response sequences enumerated");
+        rep.require(rep.counter("quorum_exhaustive_executions") >= 5000, "fewer than 5000 exhaustive quorum executions");
+        rep.require(rep.counter("quorum_keys_reaching_quorum") >= 1000, "too few keys reached quorum");
+        rep.require(rep.counter("quorum_error_responses") >= 1000, "too few error responses");
+        rep.finish(RULE, true);
+    }
+    {
+        let mut rep = Reporter::new("C39", args.seed);
+        let t0 = std::time::Instant::now();
+        fold(&mut rep, explore::<Join>("C39", TEST, args.seed, thorough, budget), "join_responses");
+        rep.extra("helpers", json!("join_responses"));
+        rep.extra("seconds", json!(t0.elapsed().as_secs_f64()));
+        rep.require(rep.counter("join_responses_exhaustive_executions") >= 20, "fewer than 20 exhaustive join executions");
+        rep.require(rep.counter("join_responses_eligible_responses") >= 500, "too few joinable responses");
+        rep.require(rep.counter("join_responses_runs_where_an_ack_never_came") == 0, "a metadata acknowledgement never arrived");
+        rep.finish(RULE, true);
+    }
 }
